@@ -62,8 +62,14 @@ func splitCases(r *sim.Rng, n int, cw *sim.CaseWriter) {
 }
 
 func asmCases(r *sim.Rng, n int, cw *sim.CaseWriter) {
+	nd := newNode()
 	for i := 0; i < n; i++ {
+		// the streams of a connection as the node itself builds them (NewStreams), or stand-alone ones
 		streams := map[lib.Topic]*p2p.VerifStream{}
+		realSet := i%2 == 0
+		if realSet {
+			streams = nd.VerifNewStreams()
+		}
 		var packets, obs []string
 		for k := 0; k < 4+r.Intn(20); k++ {
 			topic := lib.Topic(r.Intn(4))
@@ -88,7 +94,7 @@ func asmCases(r *sim.Rng, n int, cw *sim.CaseWriter) {
 				obs = append(obs, "(Some None)")
 			}
 		}
-		cw.Add(fmt.Sprintf("mkAC %s %s %s", sim.CoqN(uint64(p2p.VerifMaxMessageSize)), sim.CoqList(packets), sim.CoqList(obs)), map[string]any{"packets": len(packets)})
+		cw.Add(fmt.Sprintf("mkAC %s %s %s", sim.CoqN(uint64(p2p.VerifMaxMessageSize)), sim.CoqList(packets), sim.CoqList(obs)), map[string]any{"packets": len(packets), "streams_from_NewStreams": realSet})
 		st.Cases++
 		st.Distinct++
 		st.Kinds["assembler"]++
